@@ -26,6 +26,10 @@ LEAF_PROGRAM = [
     (F('k', C(1)), CUT),
     (F('k', C(2)), TRUE),
     (F('t2', C(2)), TRUE),
+    # one NAME at two arities: kk/0 has a single clause that ends in a cut, kk/1 has plain facts
+    (A('kk'), (',', call(F('o', C(1))), CUT)),
+    (F('kk', C(1)), TRUE),
+    (F('kk', C(2)), TRUE),
 ]
 
 _cache = {}
@@ -104,6 +108,10 @@ def instantiate(t):
                 return call(A('z'))
             if k == 's':
                 return call(F('m', V('V1')))
+            if k == 'j':
+                # a call of kk/0, a predicate with one clause, a variable-free body and a cut, whose
+                # name is also used (at arity 1) by a predicate without cut
+                return call(A('kk'))
             if k == 't':
                 # a TEST on the variable of the FIRST leaf that fails for its first solution (1) and
                 # succeeds for a later one (2): whether a construct has committed to the first
